@@ -36,7 +36,9 @@ def pack(tags, encoding='latin_1'):
                 cur = 0
             cur = cur + add
         assume(ncar <= 5)
-        rp = {'kind': 'pack', 'args': {'tags': list(tags), 'lengths': [ev(n) for n in ns], 'encoding': encoding}}
+        def rp():
+            return {'kind': 'pack', 'args': {'tags': list(tags), 'lengths': [ev(n) for n in ns], 'encoding': encoding,
+                                            'values': [concretize(v, ev) if isinstance(v, Rope) else v for v in vals]}}
         with guard('_pds_to_de', 'C12/exception', rp):
             outs = iso._pds_to_de(dict(msg))
         # (1) concatenation of carriers == all sub-elements in ascending tag order, tag(4) len(3) value
@@ -56,7 +58,8 @@ def pack(tags, encoding='latin_1'):
         require(len(outs) <= 5, 'set that fits five carriers was packed into %d' % len(outs), key='C12/capacity', replay=rp)
         # (4) through dumps/loads: carriers assigned in ascending element order; decode returns the same set
         try:
-            b = iso.dumps(dict(msg), encoding=encoding)
+            with guard('dumps of a PDS set that fits the carriers', 'C12/encode-refused', rp, allow=(IndexError,)):
+                b = iso.dumps(dict(msg), encoding=encoding)
         except IndexError:
             fail('dumps ran out of carrier elements for a set that fits', key='C12/capacity', replay=rp)
         with guard('loads of the packed message', 'C12/decode', rp):
@@ -71,7 +74,7 @@ def pack(tags, encoding='latin_1'):
             req_eq(got, v, 'PDS%s changed' % t, key='C12/decode', replay=rp)
         extra = [k for k in d if k.startswith('PDS') and k[3:] not in tags]
         require(not extra, 'invented sub-elements %s' % extra, key='C12/decode', replay=rp)
-        return {'sample': {'lengths': [ev(n) for n in ns], 'carriers': [ev(rlen(o)) for o in outs]}, 'replay': rp}
+        return {'sample': {'lengths': [ev(n) for n in ns], 'carriers': [ev(rlen(o)) for o in outs]}, 'replay': rp()}
     return h
 
 
